@@ -145,8 +145,27 @@ LRecTemplates ==
     <<"rec", <<"or", <<"then", <<"memo", Ref1>>, <<"then", J("+"), J("a")>>>>, J("a")>>>>,
     <<"rec", <<"memo", <<"or", <<"then", Ref1, J("a")>>, J("a")>>>>>>,
     <<"rec", <<"memo", <<"or", <<"map", <<"then", Ref1, <<"then", J("+"), Ref1>>>>, "f">>, J("a")>>>>>> }
-Templates(fam) == CASE fam = "rec" -> RecTemplates [] fam = "lrec" -> LRecTemplates
-TemplateFams == {"rec", "lrec"}
+(* repetition shapes (C02): every bound / flag combination over a few item and separator      *)
+(* parsers, each also followed by a rest-capturing continuation so that the position the      *)
+(* repetition leaves behind is observable                                                      *)
+RItems == {J("a"), <<"any">>, JJ("a", "b")}
+RSeps == {J(","), JJ(",", ","), <<"ornot", J(",")>>}
+RBounds == {<<0, Inf>>, <<1, Inf>>, <<0, 1>>, <<1, 2>>, <<2, 2>>, <<0, 0>>, <<2, Inf>>}
+RReps == {<<"rep", a, b[1], b[2]>> : a \in RItems, b \in RBounds}
+RSepsIt == {<<"sep", a, sp, b[1], b[2], l, t>> : a \in RItems, sp \in RSeps, b \in RBounds, l \in BOOLEAN, t \in BOOLEAN}
+RestCap == <<"collect", <<"rep", <<"any">>, 0, Inf>>, "vec">>
+RShapes ==
+  {<<"collect", it, k>> : it \in RReps, k \in {"vec", "count", "count2", "str", "unit"}}
+  \cup {<<"collect", it, "vec">> : it \in RSepsIt}
+  \cup {<<"run", it>> : it \in RReps \cup RSepsIt}
+  \cup {<<"exact", it, n>> : it \in {x \in RReps \cup RSepsIt : x[2] = J("a")}, n \in {1, 2}}
+  \cup {<<"collect", <<"enum", it>>, "vec">> : it \in {x \in RReps \cup RSepsIt : x[2] = <<"any">>}}
+  \cup {<<"foldl", J("a"), it, "g">> : it \in {x \in RReps : x[2] = <<"any">>}}
+  \cup {<<"foldr", it, J("a"), "g">> : it \in {x \in RReps : x[2] = J("a")}}
+  \cup {<<"withctx", VI(n), <<"collect", <<"cfgrep", <<"rep", a, 0, Inf>>>>, "vec">>>> : n \in 0..2, a \in RItems}
+RepTemplates == RShapes \cup {<<"then", sh, RestCap>> : sh \in RShapes}
+Templates(fam) == CASE fam = "rec" -> RecTemplates [] fam = "lrec" -> LRecTemplates [] fam = "repT" -> RepTemplates
+TemplateFams == {"rec", "lrec", "repT"}
 
 Grammars == IF Fam \in TemplateFams THEN Templates(Fam)
             ELSE {g \in UNION {GSz(Fam, n) : n \in 1..MaxSize} : WF(g)}
